@@ -5,6 +5,7 @@
 import SifVerif.Proofs.CreateWF
 import SifVerif.Proofs.Zero
 import SifVerif.Proofs.RangesStep
+import SifVerif.Proofs.CreateRanges
 namespace Sif.C03
 
 variable (sha : Bytes → Bytes) (ph : Bytes → Option Bytes)
@@ -68,6 +69,50 @@ theorem C03_history_inputs (s : Img) (ops : List (Op × Int)) (W : WF s) (P : Pl
       (step sha ph (runOps sha ph s (ops.take k)) op now).2 ≠ .err .io) :
     WF (runOps sha ph s ops) ∧ Placed (runOps sha ph s ops) :=
   C03_history sha ph s ops W P (Ranges_history sha ph s ops W R E hin hio) hio
+
+/-- a created image is a valid start for the input-only history theorems: from hypotheses on the
+    creation options alone (`CreateOpts.InRange`: times, offsets, capacity, ID and the objects' typed
+    fields representable; table + objects + alignment padding below int64) an accepted
+    `CreateContainer` yields `WF`, `Placed`, `Ranges` and `EndsOK` -/
+theorem C03_created_inputs (be : Backend) (co : CreateOpts) (hin : co.InRange) (hdoff : 128 ≤ co.doff)
+    (h : (createContainerPlan sha ph be co).2.2 = .ok) :
+    ∃ st', (emptyStore be).calls (createContainerPlan sha ph be co).1 = some st' ∧
+      WF { (createContainerPlan sha ph be co).2.1 with st := st' } ∧
+      Placed { (createContainerPlan sha ph be co).2.1 with st := st' } ∧
+      Ranges { (createContainerPlan sha ph be co).2.1 with st := st' } ∧
+      EndsOK { (createContainerPlan sha ph be co).2.1 with st := st' } := by
+  have hcap : co.capacity < maxU32 := by
+    by_cases hc : co.capacity ≥ maxU32
+    · unfold createContainerPlan at h; simp [hc] at h
+    · omega
+  obtain ⟨st', h1, h2, h3, _⟩ := createContainerPlan_ok sha ph be co hin.2.2.1 hdoff trivial h
+  obtain ⟨R, E⟩ := createContainerPlan_ranges sha ph be co hin hcap
+  exact ⟨st', h1, h2, h3, ⟨R.hv, R.dv⟩, E⟩
+
+/-- **from `CreateContainer` through any history**: the creation options and every operation's
+    inputs representable, no store failure — then every state reached is well-formed and correctly
+    placed.  No hypothesis mentions an intermediate state's invariants. -/
+theorem C03_from_creation (be : Backend) (co : CreateOpts) (hin : co.InRange) (hdoff : 128 ≤ co.doff)
+    (h : (createContainerPlan sha ph be co).2.2 = .ok) (ops : List (Op × Int)) :
+    ∃ st', (emptyStore be).calls (createContainerPlan sha ph be co).1 = some st' ∧
+      let s0 : Img := { (createContainerPlan sha ph be co).2.1 with st := st' }
+      ((∀ k op now, ops[k]? = some (op, now) → Op.InRange (runOps sha ph s0 (ops.take k)) op now) →
+       (∀ k op now, ops[k]? = some (op, now) →
+          (step sha ph (runOps sha ph s0 (ops.take k)) op now).2 ≠ .err .io) →
+       WF (runOps sha ph s0 ops) ∧ Placed (runOps sha ph s0 ops)) := by
+  obtain ⟨st', h1, W, P, R, E⟩ := C03_created_inputs sha ph be co hin hdoff h
+  exact ⟨st', h1, fun hi hio => C03_history_inputs sha ph _ ops W P R E hi hio⟩
+
+/-- the creation bounds are satisfiable: default table offset, capacity 48, one 5-byte object
+    aligned to 4096 -/
+example : ({ launch := [], id := List.replicate 16 0, t := 0,
+             dis := [{ (default : DI) with content := [1, 2, 3, 4, 5], alignment := 4096 }] } : CreateOpts).InRange := by
+  refine ⟨by show I64 0; unfold I64; omega, by decide, by decide, by decide, ?_, by decide⟩
+  intro di hdi
+  simp only [List.mem_singleton] at hdi
+  subst hdi
+  refine ⟨by unfold I32; decide, by unfold U32; decide, by unfold I64; decide, ?_⟩
+  intro fs pt a hmd; cases hmd
 
 /-- the descriptor table lies where the header says, after the header and before the data
     section, and the bytes there are exactly the encoding of the in-memory table -/
